@@ -314,6 +314,26 @@ fn run_session(case: &Case) -> Result<(Pass, bool), Fail> {
         while let Ok(Some(ev)) = term.poll(Some(Duration::ZERO)) {
             events.push(ev);
         }
+        // bytes typed on the master side travel through a kernel work queue before the slave
+        // can read them: give them a bounded time to arrive (2 s), then they count as lost
+        if let What::Input(s) = &round.what {
+            let typed_count = |events: &[TerminalEvent]| {
+                events
+                    .iter()
+                    .filter(|e| matches!(e, TerminalEvent::Key(k) if k.mode.is_empty() && matches!(k.name, KeyName::Char(c) if c != '~')))
+                    .count()
+            };
+            let t1 = Instant::now();
+            while typed_count(&events) < s.chars().count() && t1.elapsed() < Duration::from_secs(2) {
+                match term.poll(Some(Duration::from_millis(10))) {
+                    Ok(Some(ev)) => events.push(ev),
+                    Ok(None) => {}
+                    Err(e) => {
+                        return Err(Fail::new("session/poll-error", format!("round {ri}: poll failed while draining: {e:?}")));
+                    }
+                }
+            }
+        }
         let wakes = events.iter().filter(|e| matches!(e, TerminalEvent::Wake)).count();
         match &round.what {
             What::Wake { threads } => {
